@@ -645,68 +645,79 @@ class World:
                     for it in im['items']:
                         if it in self.fns:
                             impls_by_type[n].add((im['trait'], it))
+        self._impls_by_type = impls_by_type
         cg = defaultdict(set)
         ext = defaultdict(set)
         opaque = defaultdict(set)
         for f in self.fns.values():
-            c = f.crate
             for bi, t in f.calls(only_normal=False):
-                fr = t['f']
-                if 'def' in fr:
-                    res = fr.get('res')
-                    if res is not None and res in self.fns:
-                        cg[f.path].add(res)
-                        continue
-                    name = res or fr['def']
-                    if res is None and fr.get('trait') and fr['trait'].startswith('yarel::'):
-                        # unresolved call of a workspace trait method: edge to every impl
-                        mname = fr['def'].rsplit('::', 1)[-1]
-                        for c2 in self.crates.values():
-                            for im in c2.impls:
-                                if im.get('trait') == fr['trait']:
-                                    for it in im['items']:
-                                        if it.endswith('::' + mname) and it in self.fns:
-                                            cg[f.path].add(it)
-                        continue
-                    ext[f.path].add(name)
-                    # external generic code: edges to closures / fn items passed as arguments
-                    for a in t['args']:
-                        for tgt in self._fn_values(f, a):
-                            cg[f.path].add(tgt)
-                    # ... and to workspace impls of std traits for workspace types among the
-                    # callee's generic arguments
-                    mentioned = set()
-                    for a in fr.get('ra', fr.get('a', [])):
-                        for _, tt in ty_walk_no_handles(c, a):
-                            if tt['k'] == 'adt' and tt['n'] in impls_by_type:
-                                mentioned.add(tt['n'])
-                            if tt['k'] == 'closure' and tt['n'] in self.fns:
-                                cg[f.path].add(tt['n'])
-                            if tt['k'] == 'fndef' and tt['n'] in self.fns:
-                                cg[f.path].add(tt['n'])
-                    want = ext_traits_needed(name)
-                    for n in mentioned:
-                        for (tr, it) in impls_by_type[n]:
-                            if tr.startswith('std::') or tr.startswith('core::'):
-                                if want is None or tr in want:
-                                    cg[f.path].add(it)
-                else:
-                    tstr = norm_fnptr(c.tstr(fr['t']))
-                    tk = c.ty(fr['t'])['k']
-                    targets = set()
-                    if tk in ('closure', 'fndef'):
-                        n = c.ty(fr['t'])['n']
-                        if n in self.fns:
-                            targets.add(n)
-                    targets |= {x for x in reified.get(tstr, ()) if x in self.fns}
-                    if targets:
-                        cg[f.path] |= targets
-                    else:
-                        opaque[f.path].add(tstr)
+                targets, extname, opq = self.call_targets(f, t)
+                cg[f.path] |= targets
+                if extname is not None:
+                    ext[f.path].add(extname)
+                if opq is not None:
+                    opaque[f.path].add(opq)
         self._cg = cg
         self.cg_ext = ext
         self.cg_opaque = opaque
         return cg
+
+    def call_targets(self, f, t):
+        """(workspace functions this call terminator may enter, external callee name or None, opaque fn-pointer type or None)"""
+        if self._cg is None and not hasattr(self, '_impls_by_type'):
+            self.callgraph()
+        impls_by_type = self._impls_by_type
+        reified = self.reified()
+        c = f.crate
+        fr = t['f']
+        out = set()
+        if 'def' in fr:
+            res = fr.get('res')
+            if res is not None and res in self.fns:
+                return {res}, None, None
+            name = res or fr['def']
+            if res is None and fr.get('trait') and fr['trait'].startswith('yarel::'):
+                # unresolved call of a workspace trait method: edge to every impl
+                mname = fr['def'].rsplit('::', 1)[-1]
+                for c2 in self.crates.values():
+                    for im in c2.impls:
+                        if im.get('trait') == fr['trait']:
+                            for it in im['items']:
+                                if it.endswith('::' + mname) and it in self.fns:
+                                    out.add(it)
+                return out, None, None
+            # external generic code: edges to closures / fn items passed as arguments
+            for a in t['args']:
+                for tgt in self._fn_values(f, a):
+                    out.add(tgt)
+            # ... and to workspace impls of std traits for workspace types among the
+            # callee's generic arguments
+            mentioned = set()
+            for a in fr.get('ra', fr.get('a', [])):
+                for _, tt in ty_walk_no_handles(c, a):
+                    if tt['k'] == 'adt' and tt['n'] in impls_by_type:
+                        mentioned.add(tt['n'])
+                    if tt['k'] == 'closure' and tt['n'] in self.fns:
+                        out.add(tt['n'])
+                    if tt['k'] == 'fndef' and tt['n'] in self.fns:
+                        out.add(tt['n'])
+            want = ext_traits_needed(name)
+            for n in mentioned:
+                for (tr, it) in impls_by_type[n]:
+                    if tr.startswith('std::') or tr.startswith('core::'):
+                        if want is None or tr in want:
+                            out.add(it)
+            return out, name, None
+        tstr = norm_fnptr(c.tstr(fr['t']))
+        tk = c.ty(fr['t'])['k']
+        if tk in ('closure', 'fndef'):
+            n = c.ty(fr['t'])['n']
+            if n in self.fns:
+                out.add(n)
+        out |= {x for x in reified.get(tstr, ()) if x in self.fns}
+        if out:
+            return out, None, None
+        return out, None, tstr
 
     def _fn_values(self, f, operand):
         """workspace functions / closures a call argument may denote"""
